@@ -4,7 +4,6 @@
    (contextual-tuple index keys), modelgraph / model_caching / typesystem resolver keys.
    Definitions only; bytes = list N.  Tag and prefix constants come from Generated/C24Tags.v
    (read from the Go source by harness/cmd/gen_c24 on every run). *)
-From Coq Require Import String Ascii.
 From OFGA Require Import Base.Bytes Codec.Varint Generated.C24Tags.
 
 (* ---------------------------------------------------------------- byte-string order *)
@@ -238,10 +237,17 @@ Definition enc_field (f : field) : bytes := match f with FS s => enc_string s | 
 Definition enc_fields (l : list field) : bytes := flat_map enc_field l.
 Definition field_wf (f : field) : bool := match f with FS _ => true | FU i => is_u64 i end.
 
-Fixpoint str (s : String.string) : bytes :=
-  match s with String.EmptyString => [] | String.String c s' => Ascii.N_of_ascii c :: str s' end.
-
-Arguments str _%string.
+(* inline string literals of the key constructors (KeyEncProofs.lits_ok ties them to their text) *)
+Definition lit_INFINITE : bytes := [73; 78; 70; 73; 78; 73; 84; 69].
+Definition lit_OR : bytes := [79; 82].
+Definition lit_READ : bytes := [82; 69; 65; 68].
+Definition lit_RSWU : bytes := [82; 83; 87; 85].
+Definition lit_RUT : bytes := [82; 85; 84].
+Definition lit_TS : bytes := [84; 83].
+Definition lit_TTU : bytes := [84; 84; 85].
+Definition lit_UOT : bytes := [85; 79; 84].
+Definition lit_USERSET : bytes := [85; 83; 69; 82; 83; 69; 84].
+Definition lit_V2 : bytes := [86; 50].
 
 Inductive pkey :=
 | KCheck (store obj rel user : bytes) (inv : N)
@@ -271,29 +277,29 @@ Definition pkey_fields (k : pkey) : list field :=
   | KCheck s o r u i => [FS c24_PrefixSubproblemCache; FS s; FS o; FS r; FS u; FU i]
   | KChangelog s => [FS c24_PrefixChangelogCache; FS s]
   | KInvalidIter s => [FS c24_PrefixInvalidIteratorCache; FS s]
-  | KInvalidIterOR s o r => [FS c24_PrefixInvalidIteratorCache; FS (str "OR"); FS s; FS o; FS r]
-  | KInvalidIterUOT s u t => [FS c24_PrefixInvalidIteratorCache; FS (str "UOT"); FS s; FS u; FS t]
+  | KInvalidIterOR s o r => [FS c24_PrefixInvalidIteratorCache; FS lit_OR; FS s; FS o; FS r]
+  | KInvalidIterUOT s u t => [FS c24_PrefixInvalidIteratorCache; FS lit_UOT; FS s; FS u; FS t]
   | KEdge s m o u rd et tl ts i =>
       [FS c24_PrefixEdgeCacheKey; FS s; FS m; FS o; FS u; FS rd; FU et; FS tl; FS ts; FU i]
   | KModel s m => [FS c24_ModelCacheKeyPrefix; FS s; FS m]
-  | KTypesystem s m => [FS (str "TS"); FS s; FS m]
+  | KTypesystem s m => [FS lit_TS; FS s; FS m]
   | KWeightedGraph s m => [FS c24_CacheKeyPrefix; FS s; FS m]
-  | KIterRead s o r u x => [FS c24_PrefixIteratorCache; FS (str "READ"); FS s; FS o; FS r; FS u; FU x]
-  | KIterRSWU s t r x => [FS c24_PrefixIteratorCache; FS (str "RSWU"); FS s; FS t; FS r; FU x]
-  | KIterRUT s o r x => [FS c24_PrefixIteratorCache; FS (str "RUT"); FS s; FS o; FS r; FU x]
+  | KIterRead s o r u x => [FS c24_PrefixIteratorCache; FS lit_READ; FS s; FS o; FS r; FS u; FU x]
+  | KIterRSWU s t r x => [FS c24_PrefixIteratorCache; FS lit_RSWU; FS s; FS t; FS r; FU x]
+  | KIterRUT s o r x => [FS c24_PrefixIteratorCache; FS lit_RUT; FS s; FS o; FS r; FU x]
   | KPlanV2Userset s m t r ut us =>
-      [FS (str "V2"); FS (str "USERSET"); FS s; FS m; FS t; FS r; FS ut; FS us]
+      [FS lit_V2; FS lit_USERSET; FS s; FS m; FS t; FS r; FS ut; FS us]
   | KPlanV2RecUserset s m us ut =>
-      [FS (str "V2"); FS (str "USERSET"); FS s; FS m; FS us; FS ut; FS (str "INFINITE")]
+      [FS lit_V2; FS lit_USERSET; FS s; FS m; FS us; FS ut; FS lit_INFINITE]
   | KPlanV2RecTTU s m ts ut =>
-      [FS (str "V2"); FS (str "TTU"); FS s; FS m; FS ts; FS ut; FS (str "INFINITE")]
+      [FS lit_V2; FS lit_TTU; FS s; FS m; FS ts; FS ut; FS lit_INFINITE]
   | KPlanV2TTU s m t r ut ts cr =>
-      [FS (str "V2"); FS (str "TTU"); FS s; FS m; FS t; FS r; FS ut; FS ts; FS cr]
+      [FS lit_V2; FS lit_TTU; FS s; FS m; FS t; FS r; FS ut; FS ts; FS cr]
   | KPlanV1UsersetRec s m t r ut =>
-      [FS (str "USERSET"); FS s; FS m; FS t; FS r; FS ut; FS (str "INFINITE")]
+      [FS lit_USERSET; FS s; FS m; FS t; FS r; FS ut; FS lit_INFINITE]
   | KPlanV1Userset s m t r ut us =>
-      [FS (str "USERSET"); FS s; FS m; FS t; FS r; FS ut; FS (str "USERSET"); FS us]
-  | KPlanV1TTU s m t r ut ts cr => [FS (str "TTU"); FS s; FS m; FS t; FS r; FS ut; FS ts; FS cr]
+      [FS lit_USERSET; FS s; FS m; FS t; FS r; FS ut; FS lit_USERSET; FS us]
+  | KPlanV1TTU s m t r ut ts cr => [FS lit_TTU; FS s; FS m; FS t; FS r; FS ut; FS ts; FS cr]
   | KCtxByUser u r t => [FS u; FS r; FS t]
   | KCtxByObject o r t => [FS o; FS r; FS t]
   end.
